@@ -119,7 +119,7 @@ def headersOf (first : List Val) (strOf : Nat → Str) : List Val :=
 /-- the used range: rows up to the last row with data, columns up to the last column with data -/
 def usedRange (rows : VGrid) : VGrid :=
   let rs := rows.take (findLastDataRow rows)
-  rs.map (fun row => row.take (findLastDataColumn rs))
+  rs.map (padTake (findLastDataColumn rs))
 
 theorem readSheetData_eq (rows : VGrid) (strOf : Nat → Str) :
     readSheetData rows strOf =
@@ -197,7 +197,89 @@ theorem usedRange_tight (g : VGrid) (c : Nat) (hne : g ≠ []) (hrect : ∀ row 
   conv => rhs; rw [← List.map_id g]
   apply List.map_congr_left
   intro row hrow
-  rw [← hrect row hrow, List.take_length]; rfl
+  rw [← hrect row hrow]; simp [padTake]
+
+/-! ### rows of different lengths (a worksheet part without `<dimension>`) -/
+
+theorem padTake_length (n : Nat) (row : List Val) : (padTake n row).length = n := by
+  simp only [padTake, List.length_append, List.length_take, List.length_replicate]; omega
+
+/-- cell `j < n` of a filled-up row: the stored cell, an empty cell where the row stores none -/
+theorem padTake_get (n : Nat) (row : List Val) (j : Nat) (hj : j < n) :
+    (padTake n row)[j]? = some (row[j]?.getD Val.none) := by
+  unfold padTake
+  by_cases h : j < row.length
+  · rw [List.getElem?_append_left (by simp; omega), List.getElem?_take_of_lt hj]
+    simp [h]
+  · have hl : (row.take n).length = row.length := by simp; omega
+    rw [List.getElem?_append_right (by omega), hl, List.getElem?_replicate]
+    have : j - row.length < n - row.length := by omega
+    simp [this, List.getElem?_eq_none (Nat.le_of_not_lt h)]
+
+theorem usedRange_length (rows : VGrid) : (usedRange rows).length = findLastDataRow rows := by
+  have := lastIdx_le (fun row => row.any isCellNonEmpty) rows
+  simp only [usedRange, List.length_map, List.length_take, findLastDataRow] at this ⊢
+  omega
+
+/-- the used range is a rectangle, whatever the lengths of the stored rows -/
+theorem usedRange_rect (rows : VGrid) :
+    ∀ row ∈ usedRange rows, row.length = findLastDataColumn (rows.take (findLastDataRow rows)) := by
+  intro row hrow
+  simp only [usedRange, List.mem_map] at hrow
+  obtain ⟨r, _, rfl⟩ := hrow
+  exact padTake_length _ _
+
+/-- cell (i, j) of the used range is the stored cell (i, j); an empty cell where row i stores fewer cells -/
+theorem usedRange_cell (rows : VGrid) (i j : Nat) (hi : i < findLastDataRow rows)
+    (hj : j < findLastDataColumn (rows.take (findLastDataRow rows))) :
+    ((usedRange rows)[i]?.bind (fun row => row[j]?)) = some (((rows[i]?.bind (fun row => row[j]?))).getD Val.none) := by
+  have hle := lastIdx_le (fun row => row.any isCellNonEmpty) rows
+  have hlt : i < rows.length := by simp only [findLastDataRow] at hi; omega
+  simp only [usedRange, List.getElem?_map, List.getElem?_take_of_lt hi, List.getElem?_eq_getElem hlt, Option.map_some,
+    Option.bind_some]
+  exact padTake_get _ _ _ hj
+
+theorem le_foldl_max (f : List Val → Nat) : ∀ (rows : VGrid) (m : Nat) (row : List Val), row ∈ rows →
+    f row ≤ rows.foldl (fun m row => max m (f row)) m := fun rows m row h => (foldl_max_mono f rows m).2 row h
+
+/-- no stored value lies outside the used range: a non-empty cell (i, j) has i below the last data row and j below
+    the last data column -/
+theorem nonEmpty_inside (rows : VGrid) (i j : Nat) (row : List Val) (v : Val) (hr : rows[i]? = some row)
+    (hv : row[j]? = some v) (hne : isCellNonEmpty v = true) :
+    i < findLastDataRow rows ∧ j < findLastDataColumn (rows.take (findLastDataRow rows)) := by
+  have hi : i < findLastDataRow rows := by
+    apply Nat.lt_of_not_le
+    intro hle
+    have := lastIdx_after (fun (row : List Val) => row.any isCellNonEmpty) rows i hle row hr
+    have hmem : v ∈ row := List.mem_of_getElem? hv
+    simp only [List.any_eq_false] at this
+    exact absurd hne (by simpa using this v hmem)
+  refine ⟨hi, ?_⟩
+  have hmem : row ∈ rows.take (findLastDataRow rows) := by
+    apply List.mem_of_getElem? (i := i)
+    rw [List.getElem?_take_of_lt hi]; exact hr
+  have h1 : j < lastIdx isCellNonEmpty row := by
+    apply Nat.lt_of_not_le
+    intro hle
+    have := lastIdx_after isCellNonEmpty row j hle v hv
+    rw [this] at hne; exact absurd hne (by decide)
+  have h2 := le_foldl_max (lastIdx isCellNonEmpty) (rows.take (findLastDataRow rows)) 0 row hmem
+  unfold findLastDataColumn
+  omega
+
+/-- some row of the used range holds a value in the last column, the last row holds a value: the range is tight -/
+theorem findLastDataColumn_attained : ∀ (rows : VGrid) (m : Nat),
+    rows.foldl (fun m row => max m (lastIdx isCellNonEmpty row)) m = m ∨
+      ∃ row ∈ rows, lastIdx isCellNonEmpty row = rows.foldl (fun m row => max m (lastIdx isCellNonEmpty row)) m
+  | [], _ => Or.inl rfl
+  | r :: rs, m => by
+    simp only [List.foldl_cons]
+    rcases findLastDataColumn_attained rs (max m (lastIdx isCellNonEmpty r)) with h | ⟨row, hrow, h⟩
+    · rw [h]
+      by_cases hm : lastIdx isCellNonEmpty r ≤ m
+      · left; omega
+      · right; exact ⟨r, List.mem_cons_self, by omega⟩
+    · right; exact ⟨row, List.mem_cons_of_mem _ hrow, h⟩
 
 end Xlsx
 
